@@ -44,12 +44,15 @@ impl ReadSpecImpl for VerifCursor {
 // Write with a ghost identity: wchan() = the finish channel behind this writer.  Writing through a
 // writer never changes which channel it will signal (ASSUMED for every Write impl: true for
 // SequentialWriter, whose on_finish field is never reassigned; wrappers forward).
+/// writing raw bytes to the connection (C04 / C06: nothing reaches the wire outside a response printed by raw_print)
+pub uninterp spec fn may_write_raw() -> bool;
 #[verifier::external_trait_specification]
 #[verifier::external_trait_extension(WriteSpec via WriteSpecImpl)]
 pub trait ExWrite {
     type ExternalTraitSpecificationFor: std::io::Write;
     spec fn wchan(&self) -> int;
     fn write(&mut self, buf: &[u8]) -> (r: std::io::Result<usize>)
+        requires may_write_raw(),      // a capability no function of this unit is given: the connection thread writes responses through raw_print only
         ensures final(self).wchan() == old(self).wchan();
     fn flush(&mut self) -> (r: std::io::Result<()>)
         ensures flush_called(), final(self).wchan() == old(self).wchan();
